@@ -598,6 +598,53 @@ def m_peek(ex, callee, args):
     return some(Ref(r, 0))
 
 
+@model(r'^(std::string::|alloc::string::)?String::push$')
+def m_string_push(ex, callee, args):
+    # String::push(char) on a string under construction (concrete length)
+    r = args[0]
+    cur = r.get() if isinstance(r, Ref) else r
+    s_ = cur.s if isinstance(cur, StrV) else None
+    ch = deref_all(args[1])
+    if s_ is None:
+        raise Unsupported('String::push on %r' % (cur,))
+    bs, ln, cap = S.parts(s_)
+    if not isinstance(ln, int):
+        raise Unsupported('String::push on a string of symbolic length')
+    src = getattr(ch, 'src', None)
+    if src is not None:
+        sb = S.parts(src[0])[0]
+        new = list(bs[:ln]) + list(sb[src[1]:src[1] + src[2]])
+    elif isinstance(ch.v, int):
+        new = list(bs[:ln]) + list(chr(ch.v).encode('utf-8'))
+    else:
+        raise Unsupported('String::push of a computed char')
+    val = StrV(bytes(new) if all(isinstance(b, int) for b in new) else S.SStr(new, len(new), 'pushed'))
+    if isinstance(r, Ref):
+        ex.check_write(r.cont)
+        r.cont.items[r.idx] = val
+    return UNIT
+
+
+@model(r'^Peekable::<.*>::(next_if|next_if_eq)::<|^Peekable::<.*>::next_if_eq$')
+def m_next_if(ex, callee, args):
+    it = get_iter(args[0])
+    if it.extra is None:
+        it.extra = iter_next(ex, it.src)
+    r = it.extra
+    if r.variant == 0:
+        return none()
+    x = r.items[0]
+    if 'next_if_eq' in callee:
+        want = deref_all(args[1])
+        okv = struct_eq(ex, x, want) if not isinstance(x, BV) else ex.int_binop('Eq', BV(x.v, x.ty), BV(want.v, x.ty))
+    else:
+        okv = ex.call_closure(args[1], [Ref(r, 0)])
+    if ex.branch(okv):
+        it.extra = None
+        return some(x)
+    return none()
+
+
 @model(r'^<(Peekable<.*>|Chars<.*>|std::slice::Iter<.*>) as Clone>::clone$')
 def m_iter_clone(ex, callee, args):
     return get_iter(args[0]).clone()
